@@ -242,11 +242,13 @@ CHECKS = {
   "harnesses": [
    {"pkg": "core", "fn": "VerifH_PathParameters", "quick": {"N": 6}, "thorough": {"N": 9}},
    doc("VerifH_PathBinding", {}, {}),
+   doc("VerifH_PathDoc", {"K": 4}, {"K": 5}, full_schema_lib=True),
    doc("VerifH_CheckPathSchema", {}, {}),
   ],
   "assumptions": ["binding: 0..2 Path directives (path from a menu of 5 paths, schema keys from {id}, {nm}, {id,nm}, {zz}) and 1..2 HTTP interactions with distinct paths from the same menu, built as catalog structs; the reference binding uses the independent byte-wise splitter of the first harness",
                   "path schema: root and children token types over all 7 JSON/JSight token types, 0..2 children, one optional rule from {additionalProperties, nullable, or, optional}"],
-  "not_decided": ["Path body parsing by the schema library and shortcut expansion through user types", "paths longer than N bytes / outside the menu"],
+  "not_decided": ["shortcut expansion of a Path body through a user type at document level (struct level: two directives sharing one user-type body)", "paths longer than N bytes / outside the menus",
+                  "document level beyond VerifH_PathDoc: one URL /a/{x}/{y} with up to K lines out of Path {x}, Path {y}, GET, POST, GET /a/{x}/{y}/z (real scanner, context resolution, collectPathVariables, schema library)"],
  },
  "C14": {
   "title": "Lexical integrity",
